@@ -321,11 +321,7 @@ func runWaitOnce(sc *WaitScenario) (res waitRun) {
 	e.nodes[0] = node
 
 	e.runStore = flyt.NewSharedStore()
-	if sc.Kind == "deadline" {
-		e.ctx = newTestCtx("deadline")
-	} else {
-		e.realCtx, e.realStop = context.WithCancel(context.Background())
-	}
+	e.makeCtx(sc.Kind)
 	type runRes struct {
 		a     flyt.Action
 		err   error
@@ -418,6 +414,7 @@ func waitLeafKinds(thorough bool) []LeafCfg {
 		{Retryable: true, Fb: "pass", PrepS: "res", ExecS: "res", PostS: "res", Build: "option"},
 		{Retryable: true, Fb: "custom", PrepS: "any", ExecS: "any", PostS: "any", Build: "builder"},
 		{Retryable: true, Fb: "pass", PrepS: "absent", ExecS: "res", PostS: "res", Build: "mixed"},
+		{Retryable: true, Fb: "pass", PrepS: "res", ExecS: "any", PostS: "any", Build: "mixed2"}, // wait as option, budget on the builder
 	}
 	if thorough {
 		ks = append(ks,
@@ -494,8 +491,15 @@ func waitBatchScenario(t *tokGen, kind string, cfg BatchCfg, fs []int, slow bool
 }
 
 func pickKind(r *rng) string {
-	if r.chance(35) {
+	switch x := r.intn(100); {
+	case x < 25:
 		return "deadline"
+	case x < 40:
+		return "cause"
+	case x < 58:
+		return "fardeadline"
+	case x < 70:
+		return "child"
 	}
 	return "canceled"
 }
@@ -508,7 +512,8 @@ func genC20(r *rng, thorough bool, emit func(WaitScenario)) {
 	kinds := waitLeafKinds(thorough)
 	batchCfg := func(N, w, conc int, stop bool) BatchCfg {
 		return BatchCfg{Budget: N, Wait: w, Fb: r.pick([]string{"pass", "custom"}), Conc: conc, Stop: stop,
-			ExecS: r.pick([]string{"res", "any"}), HasPost: true, Shape: "results", Build: r.pick([]string{"option", "builder"})}
+			ExecS: r.pick([]string{"res", "any"}), HasPost: true, Shape: "results", Build: r.pick([]string{"option", "builder", "mixed", "mixed2", "bare"}),
+			ExecVia: r.pick([]string{"", "", "copt", "cbuilder"})}
 	}
 
 	// ---- (1) the long ones first, so that they overlap with everything else ----
